@@ -102,8 +102,14 @@ func main() {
 	}
 	// slow (timing) batches first so that the tail of the run is short
 	order := make([]int, 0, len(batches))
+	slowest := func(b batch) bool { return b.Kind == "canon-dma-flushlast" || b.Kind == "canon-dma-reorder" }
 	for i, b := range batches {
-		if b.Kind != "emu" && b.Kind != "canon-emu" {
+		if slowest(b) {
+			order = append(order, i)
+		}
+	}
+	for i, b := range batches {
+		if b.Kind != "emu" && b.Kind != "canon-emu" && !slowest(b) {
 			order = append(order, i)
 		}
 	}
@@ -121,6 +127,9 @@ func main() {
 		_, finished := notes["done"]
 		_, verdict := notes["verdict"]
 		c.Count("children", 1)
+		if os.Getenv("C11_TIMES") != "" {
+			fmt.Printf("[C11] child %s idx=%d ngpu=%d took %.1fs\n", b.Kind, b.Idx, b.NGPU, res.Dur.Seconds())
+		}
 		switch {
 		case res.TimedOut:
 			c.Inconclusive(fmt.Sprintf("batch %+v: watchdog fired without a logical verdict; tail: %s", b, vlib.Tail(res.OutPath, 800)))
@@ -165,11 +174,14 @@ func main() {
 			"driver_requests_linked_to_dma":                           int64(c.N(300, 5000)),
 			"kernels_enqueued_while_other_context_has_copies_pending": 1,
 			"copy_commands_overlapping_a_running_kernel":              int64(c.N(20, 300)),
-			"canonical_cases|flushlast-same-gpu":                      2,
+			"canonical_cases|flushlast-same-gpu":                      1,
 			"canonical_cases|emu":                                     100,
-			"canonical_cases|flushlast":                               6,
+			"canonical_cases|flushlast":                               5,
 			"canonical_cases|contain-slack-d2h":                       1,
 			"canonical_cases|samepid":                                 1,
+			"canonical_cases|reorder":                                 4,
+			"dma_responses_out_of_issue_order":                        15,
+			"multi_page_copies_issued_next_to_an_undrained_kernel":    int64(c.N(10, 150)),
 			"canonical_cases|stale":                                   6,
 		},
 	})
